@@ -52,6 +52,29 @@ var (
 	descTable = []string{"", "ISD one", "Beschreibung üñï ☃ 説明"}
 )
 
+// With VERIF_SEED != 1 the middle entries of the tables are drawn from the seed (the extreme values
+// -- wildcard, maximum, 1 -- stay): the abstract cases are the same, their concrete images differ.
+func init() {
+	if vt.Seed() == 1 {
+		return
+	}
+	r := vt.Rand(3233)
+	a, b := 1+r.Intn(65533), 1+r.Intn(65533)
+	for b == a {
+		b = 1 + r.Intn(65533)
+	}
+	isdTable[1], isdTable[2] = addr.ISD(a), addr.ISD(b)
+	x, y := addr.AS(2+r.Int63n(int64(addr.MaxAS)-3)), addr.AS(2+r.Int63n(int64(addr.MaxAS)-3))
+	for y == x {
+		y = addr.AS(2 + r.Int63n(int64(addr.MaxAS)-3))
+	}
+	asTable[1], asTable[2] = x, y
+	asTable[3] = addr.AS(2 + r.Int63n(1<<32-3)) // a BGP-style AS number
+	for asTable[3] == x || asTable[3] == y {
+		asTable[3]++
+	}
+}
+
 func ISD(a int) addr.ISD {
 	if a < 0 || a >= len(isdTable) {
 		vt.Fatal("abstract ISD %d out of table", a)
@@ -71,7 +94,7 @@ func IAString(a int) string {
 	if a == 0 {
 		return ""
 	}
-	return addr.MustIAFrom(ISD(a), 0xff0000000110).String()
+	return addr.MustIAFrom(ISD(a), asTable[1]).String()
 }
 
 // World concretises abstract certificates and payloads on a clock.
